@@ -119,3 +119,119 @@ func (n *Node) Duplicates() []string {
 	}
 	return out
 }
+
+// RenderOpts selects a legal presentation of a JSON text (RFC 8259 leaves all of these to the writer).
+type RenderOpts struct {
+	Indent       bool                  // insignificant white space everywhere, a leading line feed and trailing spaces
+	EscapeAll    bool                  // every character of every string and member name written as \uXXXX (surrogate pairs above U+FFFF)
+	ReverseOrder bool                  // members of every object in reverse order
+	NullMembers  []string              // names added to the top-level object with the value null
+	Context      bool                  // "@context" added as first member of the top-level object
+	MapString    func(s string) string // optional rewrite of string values (e.g. another spelling of the same instant)
+}
+
+// Render writes n in the presentation selected by o.
+func Render(n *Node, o RenderOpts) []byte {
+	var b bytes.Buffer
+	if o.Indent {
+		b.WriteString("\n ")
+	}
+	render(&b, n, o, 0, true)
+	if o.Indent {
+		b.WriteString(" \n\t ")
+	}
+	return b.Bytes()
+}
+
+func renderString(b *bytes.Buffer, s string, o RenderOpts) {
+	if !o.EscapeAll {
+		q, _ := json.Marshal(s)
+		b.Write(q)
+		return
+	}
+	b.WriteByte('"')
+	for _, r := range s {
+		if r > 0xffff {
+			r -= 0x10000
+			fmt.Fprintf(b, `\u%04x\u%04X`, 0xd800+(r>>10), 0xdc00+(r&0x3ff))
+			continue
+		}
+		fmt.Fprintf(b, `\u%04x`, r)
+	}
+	b.WriteByte('"')
+}
+
+func render(b *bytes.Buffer, n *Node, o RenderOpts, depth int, top bool) {
+	sp := func() {
+		if o.Indent {
+			b.WriteString("\r\n" + string(bytes.Repeat([]byte("\t "), depth+1)))
+		}
+	}
+	switch n.Kind {
+	case "object":
+		b.WriteByte('{')
+		first := true
+		member := func(name string, v *Node, raw string) {
+			if !first {
+				b.WriteByte(',')
+			}
+			first = false
+			sp()
+			renderString(b, name, o)
+			if o.Indent {
+				b.WriteString(" : ")
+			} else {
+				b.WriteByte(':')
+			}
+			if v == nil {
+				b.WriteString(raw)
+			} else {
+				render(b, v, o, depth+1, false)
+			}
+		}
+		if top && o.Context {
+			member("@context", nil, `["https://www.w3.org/ns/activitystreams",{"@language":"en"}]`)
+		}
+		idx := make([]int, len(n.Names))
+		for i := range idx {
+			idx[i] = i
+			if o.ReverseOrder {
+				idx[i] = len(n.Names) - 1 - i
+			}
+		}
+		for _, i := range idx {
+			member(n.Names[i], n.Members[i], "")
+		}
+		if top {
+			for _, name := range o.NullMembers {
+				member(name, nil, "null")
+			}
+		}
+		if o.Indent && !first {
+			b.WriteString("\n")
+		}
+		b.WriteByte('}')
+	case "array":
+		b.WriteByte('[')
+		for i, e := range n.Elems {
+			if i > 0 {
+				b.WriteByte(',')
+			}
+			sp()
+			render(b, e, o, depth+1, false)
+		}
+		b.WriteByte(']')
+	case "string":
+		s := n.Str
+		if o.MapString != nil {
+			s = o.MapString(s)
+		}
+		renderString(b, s, o)
+	case "number":
+		b.WriteString(n.Str)
+	case "bool":
+		b.WriteString(n.Str)
+	default:
+		b.WriteString("null")
+	}
+}
